@@ -1015,10 +1015,15 @@ def docs_cases(seed, n):
                 # multi-line tokens with multi-byte characters before later declarations (line table bookkeeping)
                 expected.append(("DeclVar", []))
                 expected.append(("VarSpec", before()))
-                lines.append("var r%d_%d = `é日本語 \U0001F600" % (ci, di))
-                lines.append("\u4f60\u597d` /* 注释")
-                lines.append("\u3000 */")
-                lines.append("")
+                wide = "你好世界" * rng.choice([1, 5, 12])
+                lines.append("var r%d_%d = `é日本語 \U0001F600 %s" % (ci, di, wide))
+                if rng.random() < 0.5:
+                    lines.append("\u4f60\u597d` /* 注释 " + wide)
+                    lines.append("\u3000 */")
+                    if rng.random() < 0.5:
+                        lines.append("")
+                else:
+                    lines.append("`")
             if kind in ("func", "funcbody"):
                 d = before()
                 expected.append(("FuncDecl", d))
@@ -1165,7 +1170,13 @@ def layout_injection_cases(snippets=None):
     for si, sn in enumerate(snippets or EDIT_SNIPPETS):
         src0 = "package p\n\n" + sn + "\n"
         key0 = [(k, t) for p, k, t in spec_lex(src0) if k != "C"]
-        out.append(Case(src0, "F-layout-base", prog=si, style="canonical"))
+        # the reference rendering: the same token sequence on ONE line, inserted semicolons written out
+        norm = " ".join(t for k, t in key0) + "\n"
+        if [(k, t) for p, k, t in spec_lex(norm) if k != "C"] == key0 and "`" not in norm:
+            out.append(Case(norm, "F-layout-base", prog=si, style="canonical"))
+            out.append(Case(src0, "F-layout-inject", prog=si, style="inject"))
+        else:
+            out.append(Case(src0, "F-layout-base", prog=si, style="canonical"))
         cuts = [p for p, k, t in spec_lex(src0) if p is not None] + [len(src0)]
         for c in cuts:
             for ins in ("\n", "\n\n\t", " ", "/**/", "// c\n", "\r\n"):
